@@ -151,6 +151,8 @@ class QueryFamily:
             if sub is not c and the_in_place(sub):
                 yield with_cond(sub)
         for i, (k, dom) in enumerate(case['doms']):
+            if k == case.get('registry_var'):
+                continue              # (a variable without a domain ranges over every object of the case)
             for j in range(len(dom)):
                 if len(dom) > 0:
                     d = dict(case)
@@ -674,8 +676,15 @@ class C05(QueryFamily):
         if r < 0.4:
             return gen_query.gen_case_disjunction_chain(rng, tier)
         if r < 0.5:
-            return gen_query.gen_case(rng, nvars=rng.choice([1, 2, 2, 3, 3]), falsy=True, neg=True, maxdepth=3,
-                                      select=rng.choice(['all', 'some']), dom_max=4)
+            c = gen_query.gen_case(rng, nvars=rng.choice([1, 2, 2, 3, 3]), falsy=True, neg=True, maxdepth=3,
+                                   select=rng.choice(['all', 'some']), dom_max=4)
+            if c['doms'] and rng.random() < 0.35:
+                # one variable WITHOUT a domain: it ranges over the registry, i.e. over every object of the case (constructed under
+                # the caching configuration the case is evaluated under)
+                d = rng.choice(c['doms'])
+                d[1] = list(range(len(c['heap'])))
+                c['registry_var'] = d[0]
+            return c
         if r < 0.63:
             return gen_query.gen_case_forall(rng, tier)
         if r < 0.78:
@@ -788,7 +797,16 @@ class C11(QueryFamily):
             flag = ['map', ['f', gen_query.F[rng.choice(['f', 'f', 'a', 'n', 's'])]], ['var', k0]]
             rest = g.cond(rng.randint(0, 1)) if rng.random() < 0.5 else None
             c['cond'] = ['truth', flag] if rest is None else ['and', ['truth', flag], rest, 'fn']
-            c['sel'] = [t for t in c['sel'] if t != flag][:3] + [flag]
+            # (at most four constructor arguments; together they still mention EVERY rule variable)
+            from qcase import term_keys as _tk
+            others = [t for t in c['sel'] if t != flag]
+            chosen = []
+            for k in keys:
+                if k == k0 or any(k in _tk(t, set()) for t in chosen):
+                    continue
+                chosen.append(next((t for t in others if k in _tk(t, set())), ['var', k]))
+            chosen += [t for t in others if t not in chosen]
+            c['sel'] = chosen[:3] + [flag]
             rng.shuffle(c['sel'])
             c['same_object'] = flag
             for o in c['heap']:
